@@ -363,30 +363,47 @@ def run_shard(ctx):
     CONTACT = SITE | {("ASN", "ND2"), ("ASN", "OD1"), ("GLN", "NE2"), ("GLN", "OE1"), ("SER", "OG"), ("THR", "OG1"),
                       ("TRP", "NE1")}
 
+    POLAR_ATOM = {"ASP": "OD1", "GLU": "OE1", "HIS": "NE2", "CYS": "SG", "TYR": "OH", "LYS": "NZ", "ARG": "NH1",
+                  "ASN": "ND2", "GLN": "NE2", "SER": "OG", "THR": "OG1", "TRP": "NE1"}
+
     @st.composite
     def contacts(draw):
         parts = []
-        for _ in range(2):
-            s = draw(gen.structures(max_res=14 if quick else 30, allow_hetero=False, multi_chain=False,
-                                    allow_icode=False, allow_truncation=False, always_ter=True))
-            atoms = [a.copy() for a in pdbio.atoms_of(s.entries)]
-            if len({a.chain for a in atoms}) != 1:
-                return None
-            parts.append((s, atoms))
-        (sa, A), (sb, B) = parts
-        B = pdbio.atoms_of(pdbio.move(B, pdbio.ROTATIONS[draw(st.integers(0, 23))], (0, 0, 0)))
         ax = draw(st.integers(0, 2))
         sgn = draw(st.sampled_from([1, -1]))
-        ca = [a for a in A if (a.resn, a.aname) in CONTACT]
-        cb = [a for a in B if (a.resn, a.aname) in CONTACT]
-        if not ca or not cb:
-            return None
-        site_a = max(ca, key=lambda a: sgn * a.xyz[ax])
-        site_b = min(cb, key=lambda a: sgn * a.xyz[ax])
-        off = [draw(st.integers(-600, 600)) for _ in range(3)]
-        off[ax] = sgn * draw(st.integers(2600, 3600))
+        for side in (1, -1):
+            s = draw(gen.structures(max_res=14 if quick else 30, allow_hetero=False, multi_chain=False,
+                                    allow_icode=False, allow_truncation=False, always_ter=True))
+            ents = [e.copy() if isinstance(e, Atom) else e for e in s.entries]
+            if side == -1:
+                ents = pdbio.move(ents, pdbio.ROTATIONS[draw(st.integers(0, 23))], (0, 0, 0))
+            ress = [ats for _k, ats in pdbio.residues(ents)]
+            if len({a.chain for r in ress for a in r}) != 1:
+                return None
+            # the residue that sticks out furthest towards the other part gets a drawn polar type
+            cand = [r for r in ress if any(a.aname == "CB" for a in r)]
+            if not cand:
+                return None
+            out = max(cand, key=lambda r: side * sgn * next(a for a in r if a.aname == "CB").xyz[ax])
+            t = sorted(POLAR_ATOM)[draw(st.integers(0, 10 ** 6)) % len(POLAR_ATOM)]
+            new = gen.mutate_residue(out, t, draw(st.integers(0, 20)))
+            if new is None:
+                return None
+            for a in new:
+                a.chain, a.resnum, a.icode = out[0].chain, out[0].resnum, out[0].icode
+            atoms = []
+            for r in ress:
+                atoms += new if r is out else r
+            site = next((a for a in new if a.aname == POLAR_ATOM[t]), None)
+            if site is None:
+                return None
+            parts.append((s, atoms, site, t))
+        (sa, A, site_a, ta), (sb, B, site_b, tb) = parts
+        off = [draw(st.integers(-500, 500)) for _ in range(3)]
+        off[ax] = sgn * draw(st.integers(2600, 3400))
         t = tuple(site_a.xyz[i] + off[i] - site_b.xyz[i] for i in range(3))
-        B = pdbio.atoms_of(pdbio.move(B, pdbio.ROTATIONS[0], t))
+        moved = pdbio.move(B, pdbio.ROTATIONS[0], t)
+        B = pdbio.atoms_of(moved)
         if any(not pdbio.COORD_MIN + 2000 < v < pdbio.COORD_MAX - 2000 for a in B for v in a.xyz):
             return None
         cid = "B" if A[0].chain != "B" else "C"
@@ -397,7 +414,7 @@ def run_shard(ctx):
         o = _S()
         o.entries = ents
         rel, kinds, ok = draw(relabel(o))
-        return sa, pdbio.write(ents), pdbio.write(rel), kinds, ok, "%s-%s" % tuple(sorted((site_a.resn, site_b.resn)))
+        return sa, pdbio.write(ents), pdbio.write(rel), kinds, ok, "%s-%s" % tuple(sorted((ta, tb)))
 
     def contact_body(t):
         if t is None or not t[4]:
